@@ -134,7 +134,14 @@ fn bad_operation(it: &Interp, bad: &BadOp) -> Option<(u8, Operation<Vec<u8>, Vec
 		BadOp::OversizeInsert(c, k, n) => {
 			let col = pick_col(cfg, *c, |c| c.kind == Kind::Multi)?;
 			let children = (0..*n).map(|i| NodeRef::New(NewNode { data: vec![i as u8, 7], children: vec![] })).collect();
-			Some((col, Operation::InsertTree(cfg.cols[col as usize].key(200 + *k), NewNode { data: vec![5; 9], children })))
+			// the unrepresentable node sits at the root, or one / two levels below it among
+			// well-formed siblings
+			let mut node = NewNode { data: vec![5; 9], children };
+			for level in 0..(*k % 3) {
+				let sib = |i: u8| NodeRef::New(NewNode { data: vec![i, level as u8, 3], children: vec![] });
+				node = NewNode { data: vec![6; 5 + level as usize], children: vec![sib(1), NodeRef::New(node), sib(2)] };
+			}
+			Some((col, Operation::InsertTree(cfg.cols[col as usize].key(200 + *k), node)))
 		},
 	}
 }
